@@ -93,7 +93,7 @@ def monitor(ops, outs):
     if kind not in ("rate", "set"):
         return bad
     if broken:
-        return ["broken: line %d: %s" % broken]
+        return [] if broken[1].startswith("uninterpretable") else ["broken: line %d: %s" % broken]   # a line the parser cannot read is left to the model/impl diff
     rates = rc.parse_rates(cfg[2])
     if any(e.rates for e in evs):
         # the configuration changes along the history: only the stretch before the first change is judged
